@@ -25,6 +25,9 @@ def inputs_for(c):
     s = (psi1d - psi1d[0]) / (psi1d[-1] - psi1d[0])
     fpol1d = c.get("fpol_sign", 1.0) * (2.0 + 0.6 * s + 0.3 * s**2)
     pressure = 1000.0 * (1.2 - s) ** 2 + c.get("p_edge", 50.0) - 40.0
+    if c.get("reverse_order"):
+        # the same profiles listed from the edge to the axis (legal: the arrays only have to be monotone in psi)
+        psi1d, fpol1d, pressure = psi1d[::-1].copy(), fpol1d[::-1].copy(), pressure[::-1].copy()
     return r1d, z1d, psi2d, psi1d, fpol1d, pressure
 
 
